@@ -22,7 +22,13 @@ Definition upsidedown_metric : bool := false.
    [c]: the live documents with their tokens, ascending document numbers.
    [o]: the observations for (score, IncludeLocations, Explain) =
         (default,f,f) (default,f,t) (default,t,f) (default,t,t) (none,f,f) (none,f,t) (none,t,f) (none,t,t). *)
-Inductive case := Case (tr : bool) (c : corpus) (q : query) (o : list obs).
+Inductive case :=
+| Case (tr : bool) (c : corpus) (q : query) (o : list obs)
+(* several queries searched repeatedly (in rounds: q1 q2 .. qn, q1 q2 .. qn, ...; every search under
+   the 8 option combinations) on ONE index without any write in between - reader recycling and
+   other per-snapshot caches must not change an answer.  For every query: all its observations,
+   in the order they were made (a multiple of 8).  Each one is judged by [sem] on its own. *)
+| CaseMulti (tr : bool) (c : corpus) (qs : list (query * list obs)).
 
 Definition Z_list_eqb := list_eqb Z.eqb.
 
@@ -33,11 +39,16 @@ Definition check (x : case) : bool :=
   match x with
   | Case tr c q o =>
       corpus_wfb c && (Nat.eqb (length o) 8) && forallb (obs_ok (sem tr c q)) o
+  | CaseMulti tr c qs =>
+      corpus_wfb c && negb (Nat.eqb (length qs) 0) &&
+      forallb (fun qo => Nat.leb 8 (length (snd qo)) && Nat.eqb (Nat.modulo (length (snd qo)) 8) 0 &&
+                         forallb (obs_ok (sem tr c (fst qo))) (snd qo)) qs
   end.
 
 (* for replay files: the expected hit list and, per option combination, whether the
    implementation agreed *)
-Definition explain (x : case) : (list Z * list bool) :=
+Definition explain (x : case) : list (list Z * list bool) :=
   match x with
-  | Case tr c q o => (sem tr c q, map (obs_ok (sem tr c q)) o)
+  | Case tr c q o => [(sem tr c q, map (obs_ok (sem tr c q)) o)]
+  | CaseMulti tr c qs => map (fun qo => (sem tr c (fst qo), map (obs_ok (sem tr c (fst qo))) (snd qo))) qs
   end.
